@@ -4,8 +4,11 @@
 //
 // The LR machinery is NOT executed here (matching of patterns is C12/C13): MacroDetector::MacroDetector(MacroDefinition) and
 // MacroDetector::detect(vector<Token>&) are replaced by the contract stubs below (Job(stubs=...)).  Everything else - get_detectors,
-// getErrors, the usable filter, the priority bins, the pass loop, the min_element comparator, get_replacement, erase/insert, the
+// getErrors, the usable filter, the priority bins, the pass loop, the selection of the match, get_replacement, erase/insert, the
 // MAX_PASSES error, extract_macros with push_rule/D/MD/A, check_constraint - is the real code.
+// The apply_macros-level entries (h_select, h_adversarial, h_hygiene) do not name get_replacement or any other helper of apply_macros:
+// they judge the run by the token sequences apply_macros produces, so they keep giving verdicts when the helpers are re-shaped.  The
+// direct-call entries (h_inst, h_temp_names) reach get_replacement through an adapter over its known signatures.
 #include "Compiler/src/macro.cpp"
 
 extern "C" { int nondet_int(); }
@@ -24,7 +27,6 @@ static inline bool nondet_bool() { return (nondet_int() & 1) != 0; }
 #define MA_CONF {0}
 #endif
 #define MA_NLOG (MA_ND * (MA_PMAX + 1))     /* detect() calls a run can make if it overruns its budget by one pass */
-#define MA_NREP (MA_PMAX + 1)               /* get_replacement() calls, same allowance */
 #define MA_MAXR (MA_NBODY * (MA_NMATCH > 1 ? MA_NMATCH : 1))   /* longest instantiated body */
 
 // ---------------------------------------------------------------------------------------------------------------- helpers
@@ -92,8 +94,7 @@ extern "C" std::string stub_token_string(Token::Type t) { return std::string("?"
 
 // ------------------------------------------------------------------------------------------ contract stubs of the LR machinery
 struct CallRec { int tag, has, loc, len; std::vector<Token> in; std::vector<std::vector<Token>> matched; };
-struct RepRec { int pass, tag, loc, len; std::vector<Token> R; std::vector<std::vector<Token>> matched; };
-struct Log { int conflict[MA_ND]; int n; int overflow; int adversarial; int nrep; CallRec c[MA_NLOG]; RepRec r[MA_NREP]; };
+struct Log { int conflict[MA_ND]; int n; int overflow; int adversarial; const MacroDetector::Response *script; CallRec c[MA_NLOG]; };
 static Log *G;
 
 // constructor contract: stores the definition; gen_res is non-empty exactly for the definitions the harness marked as conflicting
@@ -107,8 +108,10 @@ extern "C" void stub_ctor(MacroDetector *self, MacroDefinition md) {
   if (conf) self->gen_res.n = 1;
 }
 
-// detect contract: nullopt, or a match that lies inside the input and never covers the final T_EOF; one sequence per rule position.
-// The answer is a fresh solver choice per call; every call is recorded so that the oracle can recompute the expected run.
+// detect contract: nullopt, or a match that lies inside the input and never covers the final T_EOF; one NON-EMPTY token sequence per rule
+// position (the detector's grammar has no empty right side: a literal matches one token, every slot kind at least one).
+// The answer is a fresh solver choice per call (or the scripted response of the entry); every call is recorded so that the oracle can
+// recompute the expected run.
 extern "C" std::optional<MacroDetector::Response> stub_detect(MacroDetector *self, std::vector<Token> &in) {
   Log &L = *G;
   CallRec r; r.tag = self->md.rule.u.d[0].line; r.in = in;
@@ -118,14 +121,19 @@ extern "C" std::optional<MacroDetector::Response> stub_detect(MacroDetector *sel
   if (n - 1 < 1) has = false;
   r.has = has; r.loc = 0; r.len = 0;
   MacroDetector::Response resp; resp.location = 0; resp.length = 0;
-  if (has) {
+  if (L.script != 0) {
+    // scripted: the response the entry prepared (apply_macros-level fallback of h_inst), first call only
+    has = L.n == 0 && L.script->location + L.script->length <= n - 1;
+    r.has = has;
+    if (has) { resp = *L.script; r.loc = resp.location; r.len = resp.length; r.matched = resp.matched; }
+  } else if (has) {
     int loc = nondet_int(), len = nondet_int();
     ASSUME(loc >= 0 && loc < MA_CT && len >= 1 && len <= MA_CT && loc + len <= n - 1);
     r.loc = loc; r.len = len;
     for (int p = 0; p < MA_RS; p++) if (p < self->md.rule.n) {
       std::vector<Token> seq;
       for (int q = 0; q < MA_NMATCH; q++) TOKV_SET(seq, q, sym_plain_token());
-      seq.n = sym_range(0, MA_NMATCH);
+      seq.n = sym_range(1, MA_NMATCH);
       r.matched.push_back(seq);
     }
     resp.location = loc; resp.length = len; resp.matched = r.matched;
@@ -138,25 +146,11 @@ extern "C" std::optional<MacroDetector::Response> stub_detect(MacroDetector *sel
   return std::nullopt;
 }
 
-// get_replacement stays REAL; calls from apply_macros pass through this recorder (arguments and result of the k-th call)
-extern "C" std::vector<Token> harness_real_get_replacement(std::pair<MacroDetector, MacroDetector::Response> in, int pass) { return get_replacement(in, pass); }
-extern "C" std::vector<Token> wrap_get_replacement(std::pair<MacroDetector, MacroDetector::Response> in, int pass) {
-  Log &L = *G;
-  RepRec r; r.pass = pass; r.tag = in.first.md.rule.u.d[0].line; r.loc = in.second.location; r.len = in.second.length; r.matched = in.second.matched;
-  r.R = harness_real_get_replacement(in, pass);
-  int k = L.nrep;
-  if (k >= MA_NREP) L.overflow = 1;
-  for (int i = 0; i < MA_NREP; i++) if (i == k) L.r[i] = r;
-  L.nrep = k + 1;
-  return r.R;
-}
-
 // ---------------------------------------------------------------------------------------------- counterexample read-out
 extern "C" {
-int CEX_nd, CEX_passes, CEX_nin, CEX_nlog, CEX_nrep, CEX_outn, CEX_nerr, CEX_rewrites, CEX_maxed;
+int CEX_nd, CEX_passes, CEX_nin, CEX_nlog, CEX_outn, CEX_nerr, CEX_rewrites, CEX_maxed;
 int CEX_prio[MA_ND], CEX_conf[MA_ND], CEX_nbody[MA_ND];
 int CEX_tag[MA_NLOG], CEX_has[MA_NLOG], CEX_loc[MA_NLOG], CEX_len[MA_NLOG], CEX_insize[MA_NLOG];
-int CEX_rtag[MA_NREP], CEX_rpass[MA_NREP], CEX_rloc[MA_NREP], CEX_rlen[MA_NREP];
 }
 
 // ------------------------------------------------------------------------------------------ A. selection + loop (C09, C10, C11)
@@ -173,19 +167,50 @@ static void sym_definition(MacroDefinition &d, int tag) {
   d.replacement.n = sym_range(0, MA_NBODY);
 }
 
-// cur with [loc,loc+len) replaced by R, compared with obs
-static bool splice_eq(const std::vector<Token> &cur, int loc, int len, const std::vector<Token> &R, const std::vector<Token> &obs) {
+// The specification of one instantiation, written on the harness's own data (no code of /repo involved): the body of `d` with $0 replaced by
+// the tokens the detector reported for the pattern position that $0 names, every #n replaced by an ID token named
+// <#n>:<file of the #n token>:<line of the first body token>_(M<step>), everything else copied.  istemp[w] marks the tokens that come from a #n.
+static void spec_replacement(const MacroDefinition &d, const std::vector<std::vector<Token>> &matched, int step, std::vector<Token> &R, bool *istemp) {
+  int wn = 0; for (int w = 0; w < MA_CT; w++) istemp[w] = false;
+  const int slotpos = (int)d.template_token_indices.u.d[0];
+  const int line0 = d.replacement.u.d[0].line;
+  for (int b = 0; b < MA_NBODY; b++) if (b < d.replacement.n) {
+    const Token &c = d.replacement.u.d[b];
+    if (c.t == Token::INSERTION) {
+      for (int p = 0; p < MA_RS; p++) if (p == slotpos && p < matched.n) {
+        const std::vector<Token> &sq = *matched.p[p];
+        for (int q = 0; q < MA_NMATCH; q++) if (q < sq.n) { for (int w = 0; w < MA_CT; w++) if (w == wn) TOKV_SET(R, w, sq.u.d[q]); wn++; }
+      }
+    } else if (c.t == Token::TEMP_VAL) {
+      Token t = c; t.t = Token::ID;
+      std::string nm = c.text; nm.__push(':'); nm += c.file; nm.__push(':'); push_dec(nm, line0); nm.__push('_'); nm.__push('('); nm.__push('M'); push_dec(nm, step); nm.__push(')');
+      t.text = nm;
+      for (int w = 0; w < MA_CT; w++) if (w == wn) { TOKV_SET(R, w, t); istemp[w] = true; }
+      wn++;
+    } else { for (int w = 0; w < MA_CT; w++) if (w == wn) TOKV_SET(R, w, c); wn++; }
+  }
+  R.n = wn;
+}
+
+// cur with [loc,loc+len) replaced by R, compared with obs.  Result: everything equal except possibly the TEXT of tokens that come from a
+// temporary (their naming is C10's subject); names_eq: those texts are equal too.
+static bool splice_eq(const std::vector<Token> &cur, int loc, int len, const std::vector<Token> &R, const bool *istemp, const std::vector<Token> &obs, bool &names_eq) {
   bool e = obs.n == cur.n - len + R.n && loc >= 0 && len >= 0 && loc + len <= cur.n;
+  names_eq = true;
   for (int i = 0; i < MA_CT; i++) if (e && i < obs.n) {
     // (by-value selection among the constant positions; every index is inside its sequence because the sizes agree)
     Token want = i < loc ? cur.__get(i) : i < loc + R.n ? R.__get(i - loc) : cur.__get(i - R.n + len);
-    e = tok_eq(obs.u.d[i], want);
+    bool tmp = false; for (int w = 0; w < MA_CT; w++) if (w == i - loc && i >= loc && i < loc + R.n) tmp = istemp[w];
+    const Token &o = obs.u.d[i];
+    e = o.t == want.t && o.line == want.line && o.file == want.file;
+    if (!tmp) e = e && o.text == want.text;
+    else if (e) names_eq = names_eq && !o.text.trunc && o.text == want.text;
   }
   return e;
 }
 
 static void run_selection(unsigned passes, bool adversarial) {
-  Log L; L.n = 0; L.nrep = 0; L.overflow = 0; L.adversarial = adversarial; G = &L;
+  Log L; L.n = 0; L.script = 0; L.overflow = 0; L.adversarial = adversarial; G = &L;
   // ---- the definitions, in order of definition.  Bodies, pattern lines and the slot that $0 names are symbolic; the number of definitions,
   // their priorities and which of them the table generator rejects are CONSTANTS of the job (MA_NDEF, MA_PRIOS, MA_CONF): the family of
   // jobs enumerates every order pattern of the priorities over the definition positions (std::map only compares keys), so "independent
@@ -214,18 +239,18 @@ static void run_selection(unsigned passes, bool adversarial) {
   MacroApplicationResult res = Theo::apply_macros(input, defs, passes);
 
   const std::vector<Token> &out = res.transformed_sequence;
-  CEX_nlog = L.n; CEX_nrep = L.nrep; CEX_outn = out.n; CEX_nerr = res.errors.n;
+  CEX_nlog = L.n; CEX_outn = out.n; CEX_nerr = res.errors.n;
   for (int j = 0; j < MA_NLOG; j++) { CEX_tag[j] = L.c[j].tag; CEX_has[j] = L.c[j].has; CEX_loc[j] = L.c[j].loc; CEX_len[j] = L.c[j].len; CEX_insize[j] = L.c[j].in.n; }
-  for (int j = 0; j < MA_NREP; j++) { CEX_rtag[j] = L.r[j].tag; CEX_rpass[j] = L.r[j].pass; CEX_rloc[j] = L.r[j].loc; CEX_rlen[j] = L.r[j].len; }
 
-  // ---- oracle: replay the recorded answers of the detectors through the specification.  A correct run makes at most MA_ND * passes
-  // detect() calls and `passes` get_replacement() calls; the log holds one more pass so that an overrun is seen and flagged.
+  // ---- oracle: replay the recorded answers of the detectors through the specification.  Only what apply_macros shows to the outside is
+  // used: the token sequence every consulted detector sees and the final result.  A correct run makes at most MA_ND * passes detect()
+  // calls; the log holds one more pass so that an overrun is seen and flagged.
   std::vector<Token> cur = input, observed;
-  RepRec rec;                       // the get_replacement() call that belongs to the rewriting step of the current pass
   int pass = 0, rewrites = 0, hp = 0, remaining = 0, bestloc = 0, bestlen = 0;
-  bool done[MA_ND], tied[MA_ND]; for (int i = 0; i < MA_ND; i++) { done[i] = false; tied[i] = false; }
-  bool in_window = false, have_best = false, rec_seen = false, finished = false;
-  bool ok_member = true, ok_in = true, ok_budget = true, ok_after_end = true, ok_sel = true, ok_resp = true, ok_splice = true, ok_passno = true;
+  bool done[MA_ND]; for (int i = 0; i < MA_ND; i++) done[i] = false;
+  bool in_window = false, have_best = false, finished = false, last_rewrote = false;
+  bool best_ok = false, best_names = false, any_ok = false;
+  bool ok_member = true, ok_in = true, ok_budget = true, ok_after_end = true, ok_best = true, ok_one = true, ok_names = true;
   for (int j = 0; j < MA_NLOG; j++) if (j < L.n) {
     const CallRec &e = L.c[j];
     if (finished) ok_after_end = false;
@@ -235,13 +260,11 @@ static void run_selection(unsigned passes, bool adversarial) {
       for (int i = 0; i < MA_ND; i++) if (usable[i] && !done[i] && (!any || prio[i] > hp)) { hp = prio[i]; any = true; }
       remaining = 0;
       for (int i = 0; i < MA_ND; i++) if (any && usable[i] && !done[i] && prio[i] == hp) remaining++;
-      in_window = true; have_best = false; rec_seen = false;
-      for (int i = 0; i < MA_ND; i++) tied[i] = false;
+      in_window = true; have_best = false; best_ok = false; best_names = false; any_ok = false;
       // the token sequence after this bin's decision is what the next consulted detector sees, or the final result
       int nx = j + remaining;
       observed = out;
       for (int q = 0; q < MA_NLOG; q++) if (q == nx && q < L.n) observed = L.c[q].in;
-      for (int q = 0; q < MA_NREP; q++) if (q == rewrites) rec = L.r[q];
     }
     bool member = false;
     for (int i = 0; i < MA_ND; i++) if (i == e.tag) { member = usable[i] && !done[i] && prio[i] == hp; done[i] = true; }
@@ -252,21 +275,22 @@ static void run_selection(unsigned passes, bool adversarial) {
     if (e.has) {
       bool better = !have_best || e.loc < bestloc || (e.loc == bestloc && e.len > bestlen);
       bool tie = have_best && e.loc == bestloc && e.len == bestlen;
-      if (better) { have_best = true; bestloc = e.loc; bestlen = e.len; for (int i = 0; i < MA_ND; i++) tied[i] = false; }
-      if (better || tie) for (int i = 0; i < MA_ND; i++) if (i == e.tag) tied[i] = true;
-      // the response handed to get_replacement is the one this detector reported
-      if (e.tag == rec.tag && rewrites < L.nrep) { rec_seen = true; ok_resp = ok_resp && e.loc == rec.loc && e.len == rec.len && seqs_eq(e.matched, rec.matched); }
+      // what the token sequence must be if this candidate is the one that is instantiated in this pass
+      MacroDefinition cd = *defs.p[0];
+      for (int i = 1; i < MA_ND; i++) if (i == e.tag && i < nd) cd = *defs.p[i];
+      std::vector<Token> R; bool istemp[MA_CT]; bool names = true;
+      spec_replacement(cd, e.matched, pass, R, istemp);
+      bool same = splice_eq(cur, e.loc, e.len, R, istemp, observed, names);
+      any_ok = any_ok || same;
+      if (better) { have_best = true; bestloc = e.loc; bestlen = e.len; best_ok = same; best_names = same && names; }
+      else if (tie) { best_ok = best_ok || same; best_names = best_names || (same && names); }
     }
     if (remaining <= 0) {
       in_window = false;
       if (have_best) {
-        bool chosen_is_best = false;
-        for (int i = 0; i < MA_ND; i++) if (i == rec.tag) chosen_is_best = tied[i];
-        ok_sel = ok_sel && rewrites < L.nrep && rec_seen && chosen_is_best && rec.loc == bestloc && rec.len == bestlen;
-        ok_passno = ok_passno && rewrites < L.nrep && rec.pass == pass;
-        ok_splice = ok_splice && splice_eq(cur, rec.loc, rec.len, rec.R, observed);
-        cur = observed; pass++; rewrites++; for (int i = 0; i < MA_ND; i++) done[i] = false;
-      } else { bool left = false; for (int i = 0; i < MA_ND; i++) if (usable[i] && !done[i]) left = true; if (!left) finished = true; }
+        ok_one = ok_one && any_ok; ok_best = ok_best && best_ok; ok_names = ok_names && (best_names || !best_ok);
+        cur = observed; pass++; rewrites++; last_rewrote = true; for (int i = 0; i < MA_ND; i++) done[i] = false;
+      } else { last_rewrote = false; bool left = false; for (int i = 0; i < MA_ND; i++) if (usable[i] && !done[i]) left = true; if (!left) finished = true; }
     }
   }
   CEX_rewrites = rewrites;
@@ -275,23 +299,22 @@ static void run_selection(unsigned passes, bool adversarial) {
   for (int i = 0; i < MA_NERR; i++) if (i < res.errors.n && res.errors.u.d[i].t == ParseError::MACRO_APPLY_REACHED_MAX_PASSES) { maxed = true; nmax++; }
   CEX_maxed = maxed;
 
-  ASSERT(!L.overflow, "harness: more detect()/get_replacement() calls than the log holds (model bound)");
+  ASSERT(!L.overflow, "harness: more detect() calls than the log holds (model bound)");
   // --- C09 selection
   ASSERT(ok_member, "C09: detectors are consulted by descending priority, every usable detector of the current priority exactly once before the decision, whatever the order of definition");
   ASSERT(ok_in, "C09: every detector consulted sees the token sequence produced by the rewriting steps so far (nothing else changes it)");
-  ASSERT(ok_sel && ok_resp, "C09: the match that is instantiated is the reported match of the highest-priority, then leftmost, then longest candidate (any of exactly tied ones), with the token sequences its detector reported");
-  ASSERT(ok_splice, "C09: exactly the reported range is replaced by get_replacement's tokens; all other tokens untouched and in order");
-  ASSERT(L.nrep == rewrites, "C09: get_replacement is evaluated exactly once per rewriting step");
+  ASSERT(ok_one, "C09: a rewriting step replaces exactly the reported range of ONE consulted match by the macro's body with $n replaced by the tokens matched by slot n; all other tokens untouched and in order");
+  ASSERT(ok_best, "C09: the match that is rewritten is the reported match of the highest-priority, then leftmost, then longest candidate (any of exactly tied ones), whatever the order of definition");
   ASSERT(ok_after_end, "C09: once a pass finds no match of any usable macro no further detector is consulted");
   ASSERT(spec_end, "C09: rewriting repeats until no pattern matches or the budget is exhausted, and every bin that is consulted is consulted completely");
-  ASSERT(vec_eq(cur, out), "C09: the result is the token sequence after the last rewriting step (equal to the input when nothing matched)");
+  if (!last_rewrote) ASSERT(vec_eq(cur, out), "C09: the result is the token sequence after the last rewriting step (equal to the input when nothing matched)");
   if (L.n == 0) ASSERT(vec_eq(input, out) && !maxed, "C09: without any match of a usable macro the output equals the input and no MAX_PASSES error is reported");
   { int neof = 0; for (int i = 0; i < MA_CT; i++) if (i < out.n && out.u.d[i].t == Token::T_EOF) neof++;
     ASSERT(out.n >= 1 && neof == 1 && out.__get(out.n - 1).t == Token::T_EOF, "C09: the result still ends in the single T_EOF"); }
-  // --- C10 relies on: one rewriting step per pass number
-  ASSERT(ok_passno && ok_budget && L.nrep == rewrites, "C10: the k-th rewriting step of a run is instantiated with pass number k and is the only instantiation with that number (one rewrite per pass)");
+  // --- C10: the naming of the temporaries of the k-th step (everything else about that step is C09's assertion above)
+  ASSERT(ok_names && ok_budget, "C10: the temporaries of the k-th rewriting step of a run are the ID tokens <#n>:<file>:<line of the first body token>_(M<k>): every step has its own number (one rewrite per pass)");
   // --- C11 budget
-  ASSERT(ok_budget && (unsigned)rewrites <= passes && (unsigned)L.nrep <= passes, "C11: at most `passes` rewriting steps; no detector is consulted after the budget is used up");
+  ASSERT(ok_budget && (unsigned)rewrites <= passes, "C11: at most `passes` rewriting steps; no detector is consulted after the budget is used up");
   if ((unsigned)rewrites < passes) ASSERT(!maxed, "C11: when some pass finds nothing the loop stops and no MAX_PASSES error is added");
   if ((unsigned)rewrites == passes && passes > 0) ASSERT(maxed, "C11: when every pass of the budget rewrote, MACRO_APPLY_REACHED_MAX_PASSES is reported");
   ASSERT(nmax <= 1 && res.errors.n == nconf + nmax, "C11: the error list holds one entry per rejected macro and at most one MAX_PASSES entry");
@@ -327,6 +350,58 @@ extern "C" void h_adversarial() {
   ASSERT(0, "WITNESS: end of h_adversarial reachable");
 }
 
+// C10 at the level of apply_macros (no naming scheme, no pass number assumed): one macro whose body is two temporaries #a #b, budget 2, a
+// detector that always matches.  The two rewriting steps may match anywhere (in particular both matches may start on the same file and
+// line); the variables the first step introduces must differ from the ones the second step introduces.
+extern "C" { int CEX_h_na, CEX_h_nb, CEX_h_loc1, CEX_h_len1; }
+static bool outside_id_language(const std::string &s) {
+  bool odd = s.n == 0 || (s.b[0] >= '0' && s.b[0] <= '9');
+  for (int i = 0; i < MINISTL_STR_CAP; i++) if (i < s.n) { char c = s.b[i]; bool idc = (c >= 'a' && c <= 'z') || (c >= 'A' && c <= 'Z') || (c >= '0' && c <= '9') || c == '_'; if (!idc) odd = true; }
+  return odd;
+}
+extern "C" void h_hygiene() {
+  Log L; L.n = 0; L.script = 0; L.overflow = 0; L.adversarial = 1; for (int i = 0; i < MA_ND; i++) L.conflict[i] = 0; G = &L;
+  MacroDefinition d; sym_definition(d, 0); d.priority = 5;
+  int na = sym_range(0, 9), nb = sym_range(0, 9); CEX_h_na = na; CEX_h_nb = nb;
+  TOKV_SET(d.replacement, 0, Token(Token::TEMP_VAL, two_char('#', (char)('0' + na)), std::string("m"), sym_range(0, 9)));
+  TOKV_SET(d.replacement, 1, Token(Token::TEMP_VAL, two_char('#', (char)('0' + nb)), std::string("m"), sym_range(0, 99)));
+  d.replacement.n = 2;
+  std::vector<MacroDefinition> defs; defs.push_back(d);
+  std::vector<Token> input; TOKV_SET(input, 0, sym_plain_token()); TOKV_SET(input, 1, Token(Token::T_EOF, std::string(""), std::string("m"), sym_range(0, 99))); input.n = 2;
+  MacroApplicationResult res = Theo::apply_macros(input, defs, 2);
+  const std::vector<Token> &out = res.transformed_sequence;
+  const std::vector<Token> &mid = L.c[1].in;      // what the detector saw in the second pass = the result of the first step
+  int loc1 = L.c[1].loc, len1 = L.c[1].len; CEX_h_loc1 = loc1; CEX_h_len1 = len1;
+  bool two_steps = L.n == 2 && L.c[0].has && L.c[1].has && mid.n == 3 && out.n == 3 - len1 + 2;
+  ASSERT(!L.overflow, "harness: more detect() calls than the log holds (model bound)");
+  ASSERT(!two_steps, "C10(EXISTS): a run with two rewriting steps, each introducing the temporaries of the body");
+  if (two_steps) {
+    Token a0 = mid.u.d[0], b0 = mid.u.d[1], a1 = out.__get(loc1), b1 = out.__get(loc1 + 1);
+    ASSERT(!a0.text.trunc && !b0.text.trunc && !a1.text.trunc && !b1.text.trunc, "harness: generated name longer than the string capacity (model bound)");
+    ASSERT(a0.t == Token::ID && b0.t == Token::ID && a1.t == Token::ID && b1.t == Token::ID, "C10: after expansion a temporary is a variable (ID token)");
+    ASSERT(a0.text != a1.text && a0.text != b1.text && b0.text != a1.text && b0.text != b1.text, "C10: the temporaries of one expansion step differ from every temporary of every other expansion step, wherever the two matches start (same file and line included)");
+    ASSERT((a0.text == b0.text) == (na == nb) && (a1.text == b1.text) == (na == nb), "C10: within one expansion step equal #n denote the same variable and different #n different variables");
+    ASSERT(outside_id_language(a0.text) && outside_id_language(b0.text) && outside_id_language(a1.text) && outside_id_language(b1.text), "C10: no generated name is in the identifier language [a-zA-Z_][a-zA-Z0-9_]* of the scanner (it differs from every variable a user can write)");
+  }
+  ASSERT(0, "WITNESS: end of h_hygiene reachable");
+}
+
+// ------------------------------------------------------------------------------------------ get_replacement through its known signatures
+// kind 1: (pair<MacroDetector,Response>, int pass)   2: (const MacroDetector&, const Response&, int pass)   3: (pair<MacroDetector,Response>)
+// 0: none of these - the direct-call entries then fall back to apply_macros-level formulations (h_inst) or leave the obligation to h_hygiene.
+template<class D, class R> constexpr int GR_KIND =
+    requires(const D &d, const R &r, int p) { get_replacement(std::make_pair(d, r), p); } ? 1 :
+    requires(const D &d, const R &r, int p) { get_replacement(d, r, p); } ? 2 :
+    requires(const D &d, const R &r) { get_replacement(std::make_pair(d, r)); } ? 3 : 0;
+template<class D, class R> static std::vector<Token> call_get_replacement(const D &d, const R &r, int pass) {
+  if constexpr (GR_KIND<D, R> == 1) return get_replacement(std::make_pair(d, r), pass);
+  else if constexpr (GR_KIND<D, R> == 2) return get_replacement(d, r, pass);
+  else if constexpr (GR_KIND<D, R> == 3) return get_replacement(std::make_pair(d, r));
+  else return std::vector<Token>();
+}
+static const int GRK = GR_KIND<MacroDetector, MacroDetector::Response>;
+extern "C" { int CEX_gr_kind; }
+
 // ------------------------------------------------------------------------------------------ B. instantiation (C09, C10)
 #ifndef MB_NB
 #define MB_NB 4      /* body tokens */
@@ -336,10 +411,12 @@ extern "C" void h_adversarial() {
 extern "C" { int CEX_b_kind[MB_NB], CEX_b_k[MB_NB], CEX_b_tti[MB_NT], CEX_b_nt, CEX_b_nb, CEX_b_pass, CEX_b_outn; }
 
 // real get_replacement on a detector built by the stubbed constructor: body <= MB_NB tokens of symbolic kind, MB_NT slots at symbolic rule
-// positions, every rule position matched by <= MB_NM tokens of symbolic kind/text.  Expected: the body with $n replaced by the tokens of
+// positions, every rule position matched by 1..MB_NM tokens of symbolic kind/text.  Expected: the body with $n replaced by the tokens of
 // slot n (= rule position template_token_indices[n]), #n replaced by an ID named <#n>:<file>:<line of body[0]>_(M<pass>), the rest copied.
+// If get_replacement has none of the known signatures the same instantiation is obtained through apply_macros (one definition, budget 1,
+// input x EOF, the detector answers with the prepared response at location 0 length 1, pass number 0).
 extern "C" void h_inst() {
-  Log L; L.n = 0; L.nrep = 0; L.overflow = 0; L.adversarial = 0; for (int i = 0; i < MA_ND; i++) L.conflict[i] = 0; G = &L;
+  Log L; L.n = 0; L.script = 0; L.overflow = 0; L.adversarial = 0; for (int i = 0; i < MA_ND; i++) L.conflict[i] = 0; G = &L;
   MacroDefinition d; d.priority = 0;
   for (int r = 0; r < MA_RS; r++) TOKV_SET(d.rule, r, Token(Token::ID, std::string("A"), std::string("m"), 0));
   d.rule.n = MA_RS;
@@ -365,17 +442,28 @@ extern "C" void h_inst() {
   MacroDetector::Response resp; resp.location = sym_range(0, 9); resp.length = sym_range(1, 9);
   std::vector<Token> slot[MA_RS];
   for (int p = 0; p < MA_RS; p++) {
-    for (int q = 0; q < MB_NM; q++) { Token t; t.t = (Token::Type)sym_range(1, (int)Token::UNKNOWN); t.text = one_char(sym_lower()); t.file = std::string("m"); t.line = sym_range(0, 999); TOKV_SET(slot[p], q, t); }
-    slot[p].n = sym_range(0, MB_NM);
+    for (int q = 0; q < MB_NM; q++) { Token t; t.t = (Token::Type)sym_range(1, (int)Token::UNKNOWN); t.text = one_char(sym_lower()); t.file = std::string("m"); t.line = sym_range(0, 99); TOKV_SET(slot[p], q, t); }
+    slot[p].n = sym_range(1, MB_NM);
     resp.matched.push_back(slot[p]);
   }
-  int pass = sym_range(0, 1023); CEX_b_pass = pass;
-  MacroDetector det(d);
-  std::vector<Token> out = get_replacement(std::make_pair(det, resp), pass);
-  CEX_b_outn = out.n;
+  int pass = sym_range(0, 1023); CEX_gr_kind = GRK;
+  std::vector<Token> out;
+  if (GRK != 0) { MacroDetector det(d); out = call_get_replacement(det, resp, pass); }
+  else {
+    pass = 0; resp.location = 0; resp.length = 1;
+    std::vector<Token> input; TOKV_SET(input, 0, sym_plain_token()); TOKV_SET(input, 1, Token(Token::T_EOF, std::string(""), std::string("m"), sym_range(0, 99))); input.n = 2;
+    std::vector<MacroDefinition> defs; defs.push_back(d);
+    L.script = &resp;
+    MacroApplicationResult res = Theo::apply_macros(input, defs, 1);
+    L.script = 0;
+    out = res.transformed_sequence;
+    ASSERT(L.n == 1 && out.n >= 1 && tok_eq(out.__get(out.n - 1), input.u.d[1]), "C09: the one reported match is rewritten once and the final T_EOF stays");
+    out.n = out.n - 1;
+  }
+  CEX_b_pass = pass; CEX_b_outn = out.n;
 
   // expected sequence, built position by position (stores and comparisons at constant positions under a position guard)
-  std::vector<Token> want; int wn = 0; bool temp_ok = true;
+  std::vector<Token> want; int wn = 0; bool temp_ok = true; bool istemp[MA_CT]; for (int w = 0; w < MA_CT; w++) istemp[w] = false;
   for (int b = 0; b < MB_NB; b++) if (b < nb) {
     const Token &c = d.replacement.u.d[b];
     if (c.t == Token::INSERTION) {
@@ -385,14 +473,16 @@ extern "C" void h_inst() {
       Token t = c; t.t = Token::ID;
       std::string nm = c.text; nm.__push(':'); nm += c.file; nm.__push(':'); push_dec(nm, line0); nm.__push('_'); nm.__push('('); nm.__push('M'); push_dec(nm, pass); nm.__push(')');
       t.text = nm;
-      for (int w = 0; w < MA_CT; w++) if (w == wn) { TOKV_SET(want, w, t); temp_ok = temp_ok && w < out.n && tok_eq(out.u.d[w], t); }
+      for (int w = 0; w < MA_CT; w++) if (w == wn) { TOKV_SET(want, w, t); istemp[w] = true; temp_ok = temp_ok && w < out.n && !out.u.d[w].text.trunc && tok_eq(out.u.d[w], t); }
       wn++;
     } else { for (int w = 0; w < MA_CT; w++) if (w == wn) TOKV_SET(want, w, c); wn++; }
   }
   want.n = wn;
   ASSERT(wn <= MA_CT, "harness: expected sequence longer than the token capacity (model bound)");
   ASSERT(out.n == wn, "C09: the instantiated body has one token per ordinary body token, one per temporary and the matched tokens of the slot for every $n");
-  ASSERT(vec_eq(out, want), "C09: instantiation = body with every $n replaced by exactly the tokens matched by slot n (in order), every other token copied unchanged, temporaries renamed");
+  { bool e = out.n == wn;
+    for (int w = 0; w < MA_CT; w++) if (w < out.n && w < wn) { const Token &o = out.u.d[w], &x = want.u.d[w]; e = e && o.t == x.t && o.line == x.line && o.file == x.file && (istemp[w] || o.text == x.text); }
+    ASSERT(e, "C09: instantiation = body with every $n replaced by exactly the tokens matched by slot n (in order), every other token copied unchanged, every #n turned into one ID token at its own file/line"); }
   ASSERT(temp_ok, "C10: a temporary #n becomes an ID token named <#n>:<file of the token>:<line of the first body token>_(M<pass>) at its own file/line");
   ASSERT(0, "WITNESS: end of h_inst reachable");
 }
@@ -412,23 +502,30 @@ static std::string temp_name(int which) {
   d.replacement.n = 2;
   CEX_t_n[which] = n; CEX_t_line[which] = line0; CEX_t_pass[which] = pass; CEX_t_f0[which] = c0; CEX_t_f1[which] = c1; CEX_t_flen[which] = two ? 2 : 1;
   MacroDetector::Response resp; resp.location = 0; resp.length = 1;
+  { std::vector<Token> seq; TOKV_SET(seq, 0, sym_plain_token()); seq.n = 1; resp.matched.push_back(seq); }    // the one pattern position matched one token
   MacroDetector det(d);
-  std::vector<Token> out = get_replacement(std::make_pair(det, resp), pass);
+  std::vector<Token> out = call_get_replacement(det, resp, pass);
   ASSERT(out.n == 2 && out.u.d[1].t == Token::ID, "C10: the temporary becomes one ID token");
   return out.u.d[1].text;
 }
 extern "C" void h_temp_names() {
-  Log L; L.n = 0; L.nrep = 0; L.overflow = 0; L.adversarial = 0; for (int i = 0; i < MA_ND; i++) L.conflict[i] = 0; G = &L;
+  Log L; L.n = 0; L.script = 0; L.overflow = 0; L.adversarial = 0; for (int i = 0; i < MA_ND; i++) L.conflict[i] = 0; G = &L;
+  CEX_gr_kind = GRK;
+  // (no known way to call the naming function directly: nothing is asserted here, the obligation is h_hygiene's at the apply_macros level)
+  if (GRK != 0) {
   std::string a = temp_name(0), b = temp_name(1);
   bool same_n = CEX_t_n[0] == CEX_t_n[1], same_line = CEX_t_line[0] == CEX_t_line[1], same_pass = CEX_t_pass[0] == CEX_t_pass[1];
   bool same_file = CEX_t_flen[0] == CEX_t_flen[1] && CEX_t_f0[0] == CEX_t_f0[1] && (CEX_t_flen[0] == 1 || CEX_t_f1[0] == CEX_t_f1[1]);
   ASSERT(!a.trunc && !b.trunc, "harness: generated name longer than the string capacity (model bound)");
-  if (same_n && same_file && same_line && same_pass) ASSERT(a == b, "C10: equal n, file, defining line and pass give the same variable");
-  if (!same_pass) ASSERT(a != b, "C10: temporaries of different passes (expansion steps) are different variables, whatever n, file and line");
-  if (same_pass && same_file && same_line && !same_n) ASSERT(a != b, "C10: different n within one expansion step are different variables");
+  if (GRK == 1 || GRK == 2) {   // the step number is an argument of the naming function
+    if (same_n && same_file && same_line && same_pass) ASSERT(a == b, "C10: equal n, file, defining line and pass give the same variable");
+    if (!same_pass) ASSERT(a != b, "C10: temporaries of different passes (expansion steps) are different variables, whatever n, file and line");
+    if (same_pass && same_file && same_line && !same_n) ASSERT(a != b, "C10: different n within one expansion step are different variables");
+  }   // (otherwise "different steps, different variables" is decided at the level of apply_macros by h_hygiene)
   bool hash = false, colon = false, paren = false;
   for (int i = 0; i < MINISTL_STR_CAP; i++) if (i < a.n) { if (a.b[i] == '#') hash = true; if (a.b[i] == ':') colon = true; if (a.b[i] == '(') paren = true; }
   ASSERT(a.n >= 1 && a.b[0] == '#' && hash && colon && paren, "C10: every generated name starts with '#' and contains ':' and '(' (characters no user-written identifier contains)");
+  }
   ASSERT(0, "WITNESS: end of h_temp_names reachable");
 }
 
@@ -536,7 +633,7 @@ static void sym_matched(std::vector<std::vector<Token>> &matched, int nrule) {
 // real check_constraint on a detector whose definition satisfies the index invariant: symbolic pattern (all kinds, 1-2 letter texts) and
 // symbolic matched sequences (0..2 tokens per pattern position)
 extern "C" void h_check_constraint() {
-  Log L; L.n = 0; L.nrep = 0; L.overflow = 0; L.adversarial = 0; for (int i = 0; i < MA_ND; i++) L.conflict[i] = 0; G = &L;
+  Log L; L.n = 0; L.script = 0; L.overflow = 0; L.adversarial = 0; for (int i = 0; i < MA_ND; i++) L.conflict[i] = 0; G = &L;
   MacroDefinition md; sym_partial_macro(md, MA_RS, 0); ASSUME(md.rule.n >= 1);
   md.rule.u.d[0].line = 0;
   std::vector<std::vector<Token>> matched; sym_matched(matched, md.rule.n);
@@ -550,7 +647,7 @@ extern "C" void h_check_constraint() {
 // resolved by constant propagation) and symbolic texts / files / lines / priority digits / slot numbers; then check_constraint of the result.
 extern "C" { int CEX_x_shape; }
 static void run_extract(int shape, bool with_prio, int nrule, const int *rk, int nbody, const int *bkinds) {
-  Log L; L.n = 0; L.nrep = 0; L.overflow = 0; L.adversarial = 0; for (int i = 0; i < MA_ND; i++) L.conflict[i] = 0; G = &L;
+  Log L; L.n = 0; L.script = 0; L.overflow = 0; L.adversarial = 0; for (int i = 0; i < MA_ND; i++) L.conflict[i] = 0; G = &L;
   CEX_x_shape = shape;
   std::vector<Token> toks; int n = 0; int pv = 0;
   TOKV_SET(toks, n, Token(Token::DEFINE, std::string("def"), std::string("m"), sym_range(0, 999))); n++;
